@@ -1,5 +1,6 @@
 """C02 - notify delivers every payload intact.  Proof: generated slot formula (4 sites) = ceil(size/4), pack/unpack,
-offsets, pair-preserving sort.  Tie: T1 + the real code on the simulated MPI with an oracle that recomputes, per
+offsets, pair-preserving sort; generated epilogues (sort call, senders extraction, per-sender copy loop) = the cleanup model,
+which delivers every item at its sender's position for every item size.  Tie: T1 + the real code on the simulated MPI with an oracle that recomputes, per
 (sender, receiver), the bytes that must arrive at the position of that sender."""
 import os, sys, json
 import vlib, mpitrace
@@ -7,11 +8,99 @@ import notify_common as nc
 sys.path.insert(0, os.path.join(vlib.TOOLS, "c2g"))
 
 
+# item sizes by size class: everything small, and windows around the powers of two 64 .. 4096 (cache line, eager limits of MPI
+# implementations, page) and around libsc's default eager threshold 1024; any code that treats sizes by class has its boundary there
+SIZE_WINDOWS = [list(range(59, 70)), [100], list(range(124, 133)), list(range(252, 261)), list(range(508, 517)), [1000],
+                list(range(1020, 1029)), list(range(4092, 4101))]
+WINDOW_SIZES = [s for w in SIZE_WINDOWS for s in w]
+SAMPLED_WINDOWS = [list(range(2044, 2053)), list(range(8188, 8197))]      # three sizes of each per algorithm and run
+SMALL_SIZES = list(range(1, 41))
+WILDCARD_TYPES = (4, 5, 6, 8)       # pcx rsx nbx superset: the order of arrival at a receiver is decided by the scheduler
+
+
+def size_class(sz):
+    if sz <= 40:
+        return "1..40"
+    for w in SIZE_WINDOWS + SAMPLED_WINDOWS:
+        if w[0] <= sz <= w[-1]:
+            return "%d..%d" % (w[0], w[-1]) if len(w) > 1 else str(w[0])
+    return "other"
+
+
+def hub_pattern(rng, P, k):
+    """a hub rank (lowest, highest or any rank) with k senders, light traffic elsewhere; returns (R, hub)"""
+    hub = rng.choice([0, P - 1, rng.randrange(P)])
+    others = [q for q in range(P) if q != hub]
+    snd = set(rng.sample(others, min(len(others), k)))
+    if rng.random() < 0.15:
+        snd.add(hub)
+    R = []
+    for p in range(P):
+        s = {hub} if p in snd else set()
+        if rng.random() < 0.3:
+            s |= set(rng.sample(range(P), min(P, rng.choice([1, 1, 2]))))
+        R.append(sorted(s))
+    return R, hub
+
+
+def hub_case(rng, typ, sz, sorted_, paymode=1, eager=None):
+    if rng.random() < 0.1:
+        # number-of-senders classes: 8, 9, 15, 16, 17 and "everybody"
+        P = rng.choice([12, 17, 20, 33])
+        k = min(P - 1, rng.choice([8, 9, 15, 16, 17, P - 1]))
+    else:
+        P = rng.choice([4, 5, 5, 6, 7, 9])
+        k = rng.choice([3, 3, 3, 4, 4, 5, 6])
+    if eager is None:
+        eager = rng.random() < 0.75
+    thr = rng.choice([sz, sz + 1, max(sz, 1024), 1 << 20]) if eager else rng.choice([0, sz - 1])
+    c = nc.make_case(rng, P, typ, paymode=paymode, paysize=sz, threshold=max(thr, 0), sorted_=sorted_, style="empty")
+    R, hub = hub_pattern(rng, P, k)
+    c.patterns = [R]
+    c.lengths = [[[rng.choice([0, 1, 1, 2, 3]) for _ in R[p]] for p in range(P)]]
+    c.adv = rng.choice([0, 0, 0, 1, 2, 2, 3, 4, 5, 7, 7, 6])
+    c.hub = hub
+    return c
+
+
+def sweep_cases(ctx):
+    """ALL nine algorithms x every item size of the windows (sorted output) and of 1..40, on hub patterns"""
+    rng = ctx.rng
+    cases = []
+    reps = 1 if ctx.quick else 4
+    for typ in range(9):
+        for _ in range(reps):
+            for sz in WINDOW_SIZES:
+                cases.append(hub_case(rng, typ, sz, 1))
+                if rng.random() < 0.34:
+                    cases.append(hub_case(rng, typ, sz, 0))
+            for w in SAMPLED_WINDOWS:
+                for sz in rng.sample(w, 3):
+                    cases.append(hub_case(rng, typ, sz, 1))
+            for sz in SMALL_SIZES:
+                cases.append(hub_case(rng, typ, sz, rng.randrange(2)))
+            for sz in rng.sample(WINDOW_SIZES, 10) + rng.sample(SMALL_SIZES, 4):
+                cases.append(hub_case(rng, typ, sz, rng.randrange(2), paymode=2))
+    return cases
+
+
+def arrival_order(case, run):
+    """order in which the hub's senders were first received from (trace of the hub rank), None if not all were seen"""
+    h = case.hub
+    exp = [q for q in range(case.P) if h in case.patterns[0][q]]
+    seen = []
+    for e in sorted([e for e in run.trace if e.get("r") == h and e.get("f") == "MPI_Recv"], key=lambda e: e.get("s", 0)):
+        m = e.get("msrc")
+        if m in exp and m not in seen:
+            seen.append(m)
+    return seen if len(seen) == len(exp) else None
+
+
 def gen_cases(ctx):
     rng = ctx.rng
     cases = []
     Ps = [1, 2, 3, 4, 5, 7, 8, 9, 12, 16, 17] if ctx.quick else list(range(1, 26)) + [31, 32, 33, 48, 64]
-    sizes = list(range(1, 14)) + [15, 16, 17, 24, 31, 40]
+    sizes = list(range(1, 14)) + [15, 16, 17, 24, 31, 40] + WINDOW_SIZES
     reps = 1 if ctx.quick else 4
     for typ in range(9):
         for P in Ps:
@@ -36,52 +125,92 @@ def gen_cases(ctx):
 
 def run(ctx):
     import genall
-    st = genall.run(["NotifyC01"])
+    st = genall.run(["NotifyC01", "NotifyC02"])
     for g, s in st.items():
         if s.startswith("FAILED"):
             ctx.tie_broken("translator group " + g, s)
     ctx.props()
     cases = gen_cases(ctx)
+    sweep = sweep_cases(ctx)
+    traced = [c for c in sweep if c.type in WILDCARD_TYPES]
+    cases += [c for c in sweep if c.type not in WILDCARD_TYPES]
     if ctx.replay:
         rp = json.load(open(ctx.replay)).get("replay", {})
         if "case" in rp:
             cases = [nc.Case(**rp["case"])] + cases[:5]
+            traced = traced[:5]
+    dist = {"type": {}, "paymode": {}, "size_class": {}, "size_class_by_type_sorted": {}, "above_threshold": 0, "multi_call": 0, "P": {}, "adversary": {}}
+    arrival = {}
+
+    def judge_all(cases, runs):
+        for c, r in zip(cases, runs):
+            t = nc.TYPES[c.type]
+            dist["type"][t] = dist["type"].get(t, 0) + 1
+            dist["paymode"][c.paymode] = dist["paymode"].get(c.paymode, 0) + 1
+            sc = size_class(c.paysize)
+            dist["size_class"][sc] = dist["size_class"].get(sc, 0) + 1
+            if c.api == 0 and c.paymode == 1 and c.sorted:
+                k2 = "%s sorted %s" % (t, sc)
+                dist["size_class_by_type_sorted"][k2] = dist["size_class_by_type_sorted"].get(k2, 0) + 1
+            dist["P"][c.P] = dist["P"].get(c.P, 0) + 1
+            dist["adversary"][c.adv] = dist["adversary"].get(c.adv, 0) + 1
+            dist["above_threshold"] += 1 if (c.paymode == 1 and c.paysize > c.threshold) else 0
+            dist["multi_call"] += 1 if c.ncalls > 1 else 0
+            ctx.count_case(c.text(), nontrivial=c.P > 1 and any(len(x) for pat in c.patterns for x in pat))
+            for kind, text, detail in nc.judge(c, r):
+                kk = nc.known_key(c, kind, text)
+                key = kk or ("%s:%s" % (kind, c.key()))
+                if not kk and c.paymode and c.paysize > 40:
+                    key += "-size" + size_class(c.paysize)
+                rep = dict(case=c.to_json(), kind=kind)
+                rep.update(detail)
+                ctx.violation(key, "%s [%s]" % (text, c.header()), rep)
+            if r.trace and getattr(c, "hub", None) is not None and r.rc == 0:
+                o = arrival_order(c, r)
+                if o is not None and len(o) >= 3:
+                    a = arrival.setdefault(t, dict(hubs=0, ascending=0, descending=0, other=0, sorted_output=0, senders_ge_8=0))
+                    a["hubs"] += 1
+                    a["senders_ge_8"] += 1 if len(o) >= 8 else 0
+                    a["ascending" if o == sorted(o) else "descending" if o == sorted(o, reverse=True) else "other"] += 1
+                    a["sorted_output"] += 1 if c.sorted else 0
+
     rc, runs, err = nc.run_cases(ctx, cases)
     if rc != 0:
         nc.crash_violation(ctx, cases, runs, rc, err)
-    dist = {"type": {}, "paymode": {}, "size": {}, "above_threshold": 0, "multi_call": 0, "P": {}}
-    nshown = 0
-    for c, r in zip(cases, runs):
-        t = nc.TYPES[c.type]
-        dist["type"][t] = dist["type"].get(t, 0) + 1
-        dist["paymode"][c.paymode] = dist["paymode"].get(c.paymode, 0) + 1
-        dist["size"][c.paysize] = dist["size"].get(c.paysize, 0) + 1
-        dist["P"][c.P] = dist["P"].get(c.P, 0) + 1
-        dist["above_threshold"] += 1 if (c.paymode == 1 and c.paysize > c.threshold) else 0
-        dist["multi_call"] += 1 if c.ncalls > 1 else 0
-        ctx.count_case(c.text(), nontrivial=c.P > 1 and any(len(x) for pat in c.patterns for x in pat))
-        for kind, text, detail in nc.judge(c, r):
-            kk = nc.known_key(c, kind, text)
-            key = kk or ("%s:%s" % (kind, c.key()))
-            rep = dict(case=c.to_json(), kind=kind)
-            rep.update(detail)
-            if ctx.violation(key, "%s [%s]" % (text, c.header()), rep):
-                nshown += 1
+    judge_all(cases, runs)
+    # the wildcard algorithms of the sweep run with the trace on: the order of arrival at the hub is MEASURED, not assumed
+    rc2, runs2, err2 = nc.run_cases(ctx, traced, trace=True)
+    if rc2 != 0:
+        nc.crash_violation(ctx, traced, runs2, rc2, err2, what="notify harness (size sweep, wildcard algorithms)")
+    judge_all(traced, runs2)
+    for t in [nc.TYPES[k] for k in WILDCARD_TYPES]:
+        a = arrival.get(t, {})
+        if not ctx.replay and (a.get("descending", 0) == 0 or a.get("other", 0) == 0):
+            ctx.tie_broken("generator coverage", "no hub of %s with >= 3 senders received in descending / in mixed rank order: %s" % (t, a))
+    if len(runs2) < len(traced):
+        ctx.tie_broken("harness output", "%d of %d runs reported (size sweep)" % (len(runs2), len(traced)))
     if len(runs) < len(cases):
         ctx.tie_broken("harness output", "%d of %d runs reported" % (len(runs), len(cases)))
     # T2: the static sc_notify_merge of the working tree against the extracted int-level model, records with payload
     nc.merge_tie(ctx, [1, 1, 2, 3, 4, 10], 1500 if ctx.quick else 20000)
     # T3: every rank's trace of single calls with fixed-size items co-simulated against the extracted per-rank programs
-    nc.cosim_tie(ctx, [1], 90 if ctx.quick else 1200)
+    nc.cosim_tie(ctx, [1], 90 if ctx.quick else 1200,
+                 sizes=[1, 2, 3, 4, 5, 7, 8, 9, 12, 13, 16] + [60, 61, 63, 64, 65, 68, 127, 128, 129, 255, 256, 257, 260])
     # T3: sc_notify_payloadv with pcx / rsx (variable slices, output offsets) against the extracted program censusv_core
     nc.cosimv_tie(ctx, 30 if ctx.quick else 400)
-    ctx.cov["rule"] = ("sc_notify_payload / sc_notify_payloadv (+ sc_notify_ext, sc_notify_nary) on the simulated MPI: all 9 algorithm types, item sizes 1..17,24,31,40 (most not "
-                       "multiples of sizeof(int)), eager threshold set below/at/above the item size, variable slices of 0..7 items, sorted 0/1, in-place and separate "
-                       "outputs, 8 scheduler adversaries, some back-to-back calls; non-trivial = P > 1 and at least one receiver")
+    ctx.cov["rule"] = ("sc_notify_payload / sc_notify_payloadv (+ sc_notify_ext, sc_notify_nary) on the simulated MPI: all 9 algorithm types; item sizes by size CLASS - every size "
+                       "1..40 and every size of the windows 59..69, 124..132, 252..260, 508..516, 1020..1028, 4092..4100 (+ 100, 1000) for every algorithm with sorted output, "
+                       "a third also unsorted, a sample with variable slices - on hub patterns (a rank with 3..6 senders) under 8 scheduler adversaries; the order of arrival at "
+                       "the hub is measured from the trace for pcx / rsx / nbx / superset (notes.hub_arrival_order: ascending / descending / mixed; the check fails if descending "
+                       "or mixed arrival was never produced); eager threshold below / at / above the item size, variable slices of 0..7 items, in-place and separate outputs, "
+                       "back-to-back calls, reused output arrays; non-trivial = P > 1 and at least one receiver")
     ctx.notes["distribution"] = dist
+    ctx.notes["hub_arrival_order"] = arrival
     for c in cases[:: max(1, len(cases) // 4)][:4]:
         ctx.sample(dict(header=c.header(), receivers_call0=c.patterns[0][:4]))
-    ctx.cov["trusted_base"] = ["tools/c2g slices of the slot formula (anchored on the source text of sc_notify.c)", "tools/simmpi"]
+    ctx.cov["trusted_base"] = ["tools/c2g slices of the slot formula and of the epilogues (sc_notify_payload_cleanup, census tails, receive slots of nbx / superset; anchored on the source text "
+                               "of sc_notify.c; conventions of tools/c2g/slicelib.py + the three local ones documented in tools/c2g/groups_C02.py)", "tools/simmpi",
+                               "qsort contract (the records come back as a rank-ascending permutation) as hypothesis of C02_cleanup_sorted_is_sort_by_src"]
     ctx.assumptions += ["receiver lists are sorted and duplicate free (documented precondition)",
                         "misaligned int access inside sc_notify_payload_census for item sizes that are not multiples of 4 is tolerated (x86; UBSan alignment check off)"]
     return "proof"
